@@ -25,6 +25,7 @@ import traceback
 
 VERIF = os.path.dirname(os.path.dirname(os.path.abspath(__file__)))
 REPO = os.environ.get("VERIF_REPO", "/repo")
+OUTDIR = os.environ.get("VERIF_OUT", VERIF)  # selftest redirects evidence/replays away from the committed ones
 SRC = os.path.join(REPO, "src")
 PY = sys.executable
 
@@ -421,7 +422,7 @@ def _finish(prop, tier, seed, mod, results, dead, t0) -> int:
     lines = []
     known_seen = []
     new_viol = []
-    os.makedirs(os.path.join(VERIF, "replays"), exist_ok=True)
+    os.makedirs(os.path.join(OUTDIR, "replays"), exist_ok=True)
     for key in sorted(viol):
         f = match_known(prop, key, known)
         if f is not None:
@@ -430,7 +431,7 @@ def _finish(prop, tier, seed, mod, results, dead, t0) -> int:
             continue
         w = viol[key][0]
         hid = hashlib.sha256(canon([key, w["case"]]).encode()).hexdigest()[:12]
-        path = os.path.join(VERIF, "replays", f"{prop}-{hid}.json")
+        path = os.path.join(OUTDIR, "replays", f"{prop}-{hid}.json")
         with open(path, "w") as fh:
             json.dump({"property": prop, "key": key, "what": w["what"], "case": w["case"], "seed": seed, "tier": tier,
                        "tree": tree_identity()}, fh, indent=1, default=jdefault)
@@ -470,8 +471,8 @@ def _finish(prop, tier, seed, mod, results, dead, t0) -> int:
         "violations": len(new_viol),
         "verdict": "violated" if new_viol else ("inconclusive" if inconclusive else "held_on_observed"),
     }
-    os.makedirs(os.path.join(VERIF, "evidence"), exist_ok=True)
-    with open(os.path.join(VERIF, "evidence", f"{prop}.json"), "w") as fh:
+    os.makedirs(os.path.join(OUTDIR, "evidence"), exist_ok=True)
+    with open(os.path.join(OUTDIR, "evidence", f"{prop}.json"), "w") as fh:
         json.dump(ev, fh, indent=1, default=jdefault)
 
     for ln in lines:
